@@ -324,16 +324,23 @@ pub fn c06_check(case: &Case, f32_run: bool, law_counts: &mut std::collections::
             (Op::Xor, false, true),
             (Op::Xor, true, true),
         ] {
-            let r = if left_empty { run(e, a, op, f32_run)? } else { run(a, e, op, f32_run)? };
-            bump("empty-operand");
-            let got = canon_ringset(&r);
-            let want = if want_a { canon_ringset(a) } else { vec![] };
-            // the library works in F; for f32 the input is already f32-representable
-            if got != want {
-                return Err((
-                    "law:empty-operand".into(),
-                    format!("{} with an empty {} operand ({} form) returned {:?}, expected {}", op.name(), if left_empty { "left" } else { "right" }, if e.is_empty() { "no-polygon" } else { "empty-ring" }, r, if want_a { "the other operand" } else { "nothing" }),
-                ));
+            let (l, rgt) = if left_empty { (e, a) } else { (a, e) };
+            // through every trait pairing the two operands can be passed in (a bare Polygon needs exactly one part)
+            for pairing in PAIRINGS {
+                if !pairing.applicable(l, rgt) {
+                    continue;
+                }
+                let r = run_any(l, rgt, op, f32_run, pairing).map_err(fail_of)?;
+                bump("empty-operand");
+                let got = canon_ringset(&r);
+                let want = if want_a { canon_ringset(a) } else { vec![] };
+                // the library works in F; for f32 the input is already f32-representable
+                if got != want {
+                    return Err((
+                        "law:empty-operand".into(),
+                        format!("{} with an empty {} operand ({} form, {}) returned {:?}, expected {}", op.name(), if left_empty { "left" } else { "right" }, if e.is_empty() { "no-polygon" } else { "empty-ring" }, pairing.name(), r, if want_a { "the other operand" } else { "nothing" }),
+                    ));
+                }
             }
         }
     }
